@@ -10,7 +10,7 @@ with returned shapes equal to the requested ones.  Tolerance 1e-10 relative.
 """
 import numpy as np
 
-from vf.common import Plan, relayout, crandn, held, violated, inconclusive, rng_for, nrm, inner, pick
+from vf.common import structured, Plan, relayout, crandn, held, violated, inconclusive, rng_for, nrm, inner, pick
 from vf.oracles import conv as O
 
 SPEC = {
@@ -133,8 +133,9 @@ def run_case(case):
     dshape = case["batch"] + ([case["ci"]] if multi else []) + m
     fshape = ([case["co"], case["ci"]] if multi else []) + n
     lay = sum(case["rs"]) % 8            # 1-3: data F / T / strided; 5-7: filter likewise
-    data = relayout(crandn(rng, dshape, case["dd"]), lay if lay < 4 else 0)
-    filt = relayout(crandn(rng, fshape, case["df"]), lay - 4 if lay >= 4 else 0)
+    with structured((sum(case["rs"]) // 3) % 9 if sum(case["rs"]) % 2 else 0):
+        data = relayout(crandn(rng, dshape, case["dd"]), lay if lay < 4 else 0)
+        filt = relayout(crandn(rng, fshape, case["df"]), lay - 4 if lay >= 4 else 0)
     md, mf = case.get("mag", [1, 1])     # magnitudes: convolution is bilinear, so homogeneous
     if md != 1:
         data = data * data.dtype.type(md)
